@@ -52,13 +52,51 @@ func init() {
 				return Call{Cmd: "variants", Msa: fastaOf(recs...), RefID: "ref", Anno: gb, AnnoSuffix: "gb"}
 			})...)
 	})
+	add("C15", "options", func() []Scenario {
+		// the option paths under every schedule: alignment from stdin (reference first) with a window, windowed
+		// and padded/wrapped toMultiAlign, windowed toPairAlign
+		return append(append(append(schedPair("variants-stdin-window", func(n int) Call {
+			return Call{Cmd: "variants", Msa: msa(n), RefID: "ref", Stdin: true, Anno: gb, AnnoSuffix: "gb", Start: 2, End: 9}
+		}, 1, 2),
+			schedPair("variants-stdin-agg", func(n int) Call {
+				return Call{Cmd: "variants", Msa: msa(n), RefID: "ref", Stdin: true, Anno: gff, AnnoSuffix: "gff", Aggregate: true, End: 9}
+			}, 1)...),
+			schedPair("toma-window-pad-wrap", func(n int) Call { return Call{Cmd: "toma", Sam: samOf(n), Start: 3, End: 10, Pad: true, Wrap: 5} })...),
+			schedPair("topa-window", func(n int) Call { return Call{Cmd: "topa", Sam: samOf(n), Ref: fastaOf("ref", g12), Start: 3, End: 10} })...)
+	})
 	add("C11", "samvariants", func() []Scenario {
-		return schedPair("samvariants-gff-annoref", func(n int) Call { return Call{Cmd: "samvariants", Sam: samOf(n), NoRefFile: true, Anno: gff, AnnoSuffix: "gff", AppendSNP: true} })
+		// the FASTA side of the relation as it is used in practice: the toPairAlign pair piped into `variants`
+		pair := schedPair("variants-on-pair-stdin", func(n int) Call {
+			return Call{Cmd: "variants", Msa: fastaOf("ref", "ATGA--AATAACCC", "q0", "CTGAGGAAT-ACCC"), RefID: "ref", Stdin: true, Anno: gff, AnnoSuffix: "gff", AppendSNP: true}
+		})[:1]
+		pair[0].Mode = "U"
+		return append(pair, schedPair("samvariants-gff-annoref", func(n int) Call { return Call{Cmd: "samvariants", Sam: samOf(n), NoRefFile: true, Anno: gff, AnnoSuffix: "gff", AppendSNP: true} })...)
 	})
 	add("C13", "aggregate", func() []Scenario {
 		return append(append(schedPair("snps-agg", func(n int) Call { return Call{Cmd: "snps", Ref: fastaOf("ref", g12), Msa: fastaOf(mutated(g12, n)...), Aggregate: true, Threshold: 0.01} }),
 			schedPair("variants-agg", func(n int) Call { return Call{Cmd: "variants", Msa: msa(n), RefID: "ref", Anno: gb, AnnoSuffix: "gb", Aggregate: true} })...),
 			schedPair("samvariants-agg", func(n int) Call { return Call{Cmd: "samvariants", Sam: samOf(n), Ref: fastaOf("ref", g12), Anno: gb, AnnoSuffix: "gb", Aggregate: true} })...)
+	})
+	add("C17", "tables", func() []Scenario {
+		// the table-driven library functions used from 2 and 3 goroutines at once (first use in the run
+		// included: shared package-level state is re-initialised before every execution)
+		return []Scenario{
+			{Name: "libconc/g2", Family: "tables", Mode: "U", Call: Call{Cmd: "libconc", Query: "ATGGCNYTRTRAAAR TTYCAYMGRNNNATN", NCPU: 2}},
+			{Name: "libconc/g3", Family: "tables", Mode: "U", Call: Call{Cmd: "libconc", Query: "ATGGCNYTRTRAAAR TTYCAYMGRNNNATN ACGTMRWSYKVHDBN", NCPU: 3}},
+		}
+	})
+	add("C14", "formats", func() []Scenario {
+		// GenBank and GFF annotation of the same genome, workers translating ambiguity codons concurrently
+		feats := []Feat{{Name: "orfA", Segs: []Seg{{1, 9}}}, {Name: "orfB", Segs: []Seg{{4, 9}}}}
+		m := func(n int) string {
+			recs := []string{"ref", g12}
+			for i := 0; i < n; i++ {
+				recs = append(recs, fmt.Sprintf("s%02d", i), []string{"ATGRAATAACCC", "CTGAARTAACCC", "ATGAAATGACCC", "ATGCANTAACCC"}[i%4])
+			}
+			return fastaOf(recs...)
+		}
+		return append(schedPair("variants-gb-ambig", func(n int) Call { return Call{Cmd: "variants", Msa: m(n), RefID: "ref", Anno: renderGenbank(g12, feats), AnnoSuffix: "gb", AppendSNP: true} }),
+			schedPair("variants-gff-ambig", func(n int) Call { return Call{Cmd: "variants", Msa: m(n), RefID: "ref", Anno: renderGFF(g12, feats, true, true), AnnoSuffix: "gff", AppendSNP: true} })...)
 	})
 	targets := func(n int) string { return fastaOf(mutated("ACGTACGTAAAA", n)...) }
 	add("C06", "closest", func() []Scenario {
